@@ -65,16 +65,10 @@ theorem n_thickness (c : Curve ℝ) (te tr t s : ℝ) (hth : c.thick = some (te,
   · rw [tcorr_le_ref te tr t htr ‹_›]
   · rw [tcorr_gt_ref te tr t (not_le.mp ‹_›)]
 
-/-- Scalar and array evaluation agree. -/
+/-- Scalar and array evaluation agree (an invalid thickness request fails for both). -/
 theorem n_array (c : Curve ℝ) (s : List ℝ) (t : Option ℝ) :
-    c.nArray s t = s.mapM fun si => c.n si t := by
-  unfold Curve.nArray Curve.n
-  cases c.tfactor t with
-  | none => cases s <;> simp [List.mapM_cons]
-  | some tc =>
-    induction s with
-    | nil => simp
-    | cons a s ih => simp_all [List.mapM_cons]
+    c.nArray s t = (c.tfactor t).bind fun _ => s.mapM fun si => c.n si t :=
+  n_array' c s t
 
 /-- Non-vacuity: DNV-RP-C203 curve D in air (m1 = 3, log a1 = 12.164, m2 = 5, N_switch = 1e7, k = 0.2, t_ref = 25 mm)
 is a valid curve. -/
